@@ -118,6 +118,30 @@ def live_job(family):
             'decls': {d['class']: {k: _decl(p) for k, p in d['params'].items()} for mod, d in res.read.items()}}
 
 
+# Result-schema fields that, on the pinned tree, only stored reports under tests/ contain (key = "category||field"). They are
+# not defects (the statement is satisfied: the client extracts them from a report); they are listed so that any OTHER field
+# that stops being printed by the current writers is noticed.
+_CLGS = 'printed only by the closed-loop (CLGS tabulated database) writer, which cannot run offline (emptied database file)'
+_CCUS = 'CCUS block: no writer in this tree prints it; only stored reports of earlier versions contain it'
+_OLD = 'label of an earlier report version; only stored reports contain it'
+STORED_ONLY = {**{k: _CLGS for k in (
+    'CAPITAL COSTS (M$)||Drilling Cost', 'CAPITAL COSTS (M$)||Total CAPEX', 'ENGINEERING PARAMETERS||Design',
+    'ENGINEERING PARAMETERS||Flow rate', 'ENGINEERING PARAMETERS||Fluid', 'ENGINEERING PARAMETERS||Injection Temperature',
+    'ENGINEERING PARAMETERS||Lateral Length', 'ENGINEERING PARAMETERS||Vertical Depth', 'ENGINEERING PARAMETERS||Wellbore Diameter',
+    'OPERATING AND MAINTENANCE COSTS (M$/yr)||OPEX', 'RESERVOIR PARAMETERS||Thermal Conductivity',
+    'RESERVOIR SIMULATION RESULTS||Average Heat Production', 'RESERVOIR SIMULATION RESULTS||Average Production Pressure',
+    'RESERVOIR SIMULATION RESULTS||First Year Electricity Production', 'RESERVOIR SIMULATION RESULTS||First Year Heat Production',
+    'SUMMARY OF RESULTS||End-Use', 'SUMMARY OF RESULTS||LCOE', 'SUMMARY OF RESULTS||LCOH',
+    'SURFACE EQUIPMENT SIMULATION RESULTS||Surface Plant Cost')},
+    **{k: _CCUS for k in (
+        'CCUS ECONOMICS||Project IRR            (including carbon credit)', 'CCUS ECONOMICS||Project MOIC           (including carbon credit)',
+        'CCUS ECONOMICS||Project NPV            (including carbon credit)', 'CCUS ECONOMICS||Project Payback Period (including carbon credit)',
+        'CCUS ECONOMICS||Project VIR=IR=PIR     (including carbon credit)', 'CCUS ECONOMICS||Total Avoided Carbon Production')},
+    **{k: _OLD for k in (
+        'ENGINEERING PARAMETERS||Well depth (or total length, if not vertical)', 'SUMMARY OF RESULTS||Well depth (or total length, if not vertical)',
+        'EXTENDED ECONOMICS||Project Payback Period       (including AddOns)')}}
+
+
 def corpus_job(paths=None, texts=None):
     """Which result-schema fields does the client extract non-null from these reports?"""
     import contextlib
@@ -181,6 +205,7 @@ def run(ctx):
     genout = None
     live = {}
     seen = set()
+    seen_current = set()
     reports = 0
     with Pool(16) as pool:
         for r in pool.map(jobs, timeout=900):
@@ -197,6 +222,8 @@ def run(ctx):
                     ctx.mon.note('family-not-readable:' + r.value['family'])
             else:
                 seen.update(r.value['seen'])
+                if r.job['args'].get('texts'):
+                    seen_current.update(r.value['seen'])          # reports written by the writers of the tree under test
                 reports += r.value['reports']
     if genout is None:
         ctx.mon.inconclusive('generated-equals-committed', 'generator-job-failed')
@@ -353,6 +380,15 @@ def run(ctx):
             key = f'{cat}||{f}'
             ok = key in seen
             mon.check('result-field-extractable', ok, mechanism='C19/result-schema-field-never-extracted:' + cat + '/' + f, category=cat, field=f)
+            if ok:
+                # ... and from a report the current writers produce, not only from stored reports of the past (fields that only
+                # unreachable configurations print are listed, with the reason, in STORED_ONLY)
+                cur = key in seen_current
+                if not cur and key in STORED_ONLY:
+                    mon.note('result-field-only-in-stored-reports-of-unreachable-configurations')
+                else:
+                    mon.check('result-field-extractable-from-a-current-report', cur,
+                              mechanism='C19/result-schema-field-extracted-only-from-stored-reports:' + cat + '/' + f, category=cat, field=f)
             ctx.distinct.add(('field', key))
             if not ok:
                 missing.append(key)
